@@ -14,7 +14,7 @@ LEVEL_NOTE = ("Bounds: target length n<=10 quick / n<=14 thorough for the shape 
               "Lower-case *pattern* letters are outside the claim (every structure() writes upper case). The per-position letter "
               "predicate of the oracle comes from Bio.Data.IUPACData, the CPython regex semantics from the symx re model "
               "(validated against `re` on every run). Trusted: z3, CPython, symx models.")
-LEVEL_NOTE_EXTRA = 'three kit patterns at n=F+1 in the quick tier; besides leftmost start / one turn / span-text agreement, the extent of the match and of every group must be the one CPython regex semantics gives on the one-turn reading at the reported start.'
+LEVEL_NOTE_EXTRA = 'three kit patterns at n=F+1 in the quick tier; besides leftmost start / one turn / span-text agreement, the extent of the match and of every group must be the one CPython regex semantics gives on the one-turn reading at the reported start. Also: the same pattern object searching the same record object after its sequence was replaced; literal prefixes that overlap themselves; a shape with three wildcard runs.'
 TECHNIQUE = "bounded symbolic execution of the real Python source (symx) with z3; declarative-match oracle; replay on the real stack"
 EXPLANATION = ("symbolic execution of moclo/regex.py on symbolic targets: the search loop, the one-turn window on the doubled "
                "string, Seq/SeqRecord/CircularRecord dispatch and SeqMatch.group's wrap-around arithmetic are decided by z3 "
